@@ -82,6 +82,7 @@ def jobs(tier, seed):
     for N in ((4, 5, 6) if th else (4, 5)):
         out.append(('symbolic-N%d' % N, dict(kind='symbolic', n=1, m=1, N=N, family='', seed=seed)))
     out.append(('guards', dict(kind='guards', n=1, m=1, N=6, family='uniform-inc', seed=seed)))
+    out.append(('integer-typed-samples-witness', dict(kind='intwitness', n=1, m=1, N=8, family='', seed=seed)))
     return out
 
 
@@ -91,7 +92,38 @@ def run_job(job, kind, n, m, N, family, seed):
         return on_grid(job, fb, n, m, N, family, seed)
     if kind == 'symbolic':
         return symbolic(job, fb, N)
+    if kind == 'intwitness':
+        bad = int_witness_failures(fb)
+        if not job.confirm('integer-typed samples / grids give the same result as the same values as floats (concrete runs)', not bad):
+            job.violation('int', dict(key='C16:integer-typed-samples', kind='intwitness', detail=bad[0]))
+        return
     return guards(job, fb)
+
+
+def int_witness_failures(fb):
+    """CONCRETE witness runs (not solver evidence): the symbolic runs carry no numpy dtype, so an output buffer that inherits an
+    integer dtype from the samples is invisible to them.  Polynomials with integer values at integer points:
+    x(x+1)/2, x(x+1)(x+2)/6, x^2, ..."""
+    bad = []
+    for N in (8, 11):
+        x = np.arange(N)
+        polys = [('x(x+1)/2', x * (x + 1) // 2, lambda t: t + 0.5, lambda t: np.ones_like(t, dtype=float)),
+                 ('x^2 - 3x', x * x - 3 * x, lambda t: 2.0 * t - 3, lambda t: 2.0 + 0 * t),
+                 ('x(x+1)(x+2)/6', x * (x + 1) * (x + 2) // 6, lambda t: (3.0 * t * t + 6 * t + 2) / 6, lambda t: t + 1.0)]
+        for name, fx, d1, d2 in polys:
+            for label, fxa, xa in (('int array', fx, x), ('list of int', [int(v) for v in fx], [int(v) for v in x]),
+                                   ('int samples on a float grid', fx, x.astype(float)), ('float samples on an int grid', fx.astype(float), x)):
+                for n, exact in ((1, d1), (2, d2)):
+                    try:
+                        got = np.asarray(fb.fd_derivative(fxa, xa, n=n, m=2))
+                    except Exception as e:  # noqa
+                        bad.append('fd_derivative(%s samples of %s, n=%d) raises %s: %s' % (label, name, n, type(e).__name__, e))
+                        continue
+                    want = exact(x.astype(float))
+                    if got.shape != want.shape or not np.allclose(got.astype(float), want, rtol=1e-9, atol=1e-9):
+                        bad.append('fd_derivative with %s samples of p(x) = %s on x = 0..%d, n=%d, m=2 returns %s, exact %s-th derivative %s'
+                                   % (label, name, N - 1, n, got.tolist()[:5], n, want.tolist()[:5]))
+    return bad
 
 
 def on_grid(job, fb, n, m, N, family, seed):
@@ -205,6 +237,9 @@ def replay(cex):
     cfg = cex['config']
     kind = cex.get('kind')
     asg = cm.assignment_from_model(cex.get('model', {}))
+    if kind == 'intwitness':
+        bad = int_witness_failures(fb)
+        return (True, bad[0]) if bad else (False, 'integer-typed samples behave like floats')
     if kind == 'guard':
         xf = np.linspace(-1, 1, 6)
         try:
